@@ -552,6 +552,10 @@ static void run_stream(FILE *in)
         else enc(kf->root_prefix);
         putchar('\n');
       }
+    } else if (!strcmp(c, "freenull")) {
+      /* the free functions accept NULL and return NULL */
+      econf_file *a = econf_freeFile(NULL); char **b = econf_freeArray(NULL); econf_freeExtValue(NULL);
+      printf("rc=%d\n", (a == NULL && b == NULL) ? 0 : 1);
     } else if (!strcmp(c, "errstring")) {
       printf("rc=0 v="); enc(econf_errString((econf_err) atoi(t[1]))); putchar('\n');
     } else if (!strcmp(c, "free")) {
